@@ -1,9 +1,9 @@
 package props
 
 import (
-	"go/types"
 	"fmt"
 	"go/token"
+	"go/types"
 	"sort"
 	"strings"
 
@@ -312,7 +312,9 @@ func returnsTrue(t *an.Trace) bool {
 func countKind(t *an.Trace, kind string) int { return len(eventsOf(t, kind)) }
 
 // rawReject reports whether the trace contains the raw-bytes reject (RejectMessage spliced in): a ValueByTag lookup followed by a Reject send.
-func isRejectSend(e an.Event) bool { return e.Kind == "send" && len(e.Kinds) == 1 && e.Kinds[0] == "Reject" }
+func isRejectSend(e an.Event) bool {
+	return e.Kind == "send" && len(e.Kinds) == 1 && e.Kinds[0] == "Reject"
+}
 
 // guardSet intersects what all (non-stale) state tests before the first own state change or send have established.
 func (s *sess) guardSet(t *an.Trace) (an.StateSet, bool) {
